@@ -207,7 +207,17 @@ fn dump<A: Codec>(name: &str) {
     println!("comp {}", none); println!("mask {}", none); println!("unmask {}", none);
     // a sequence over the derived codec obeys the same round-trip laws: parse(display(items)) displays the same
     let text: String = A::items().map(|x| x.to_char()).collect();
-    let rt = match Seq::<A>::try_from(text.as_str()) { Ok(s) => (s.to_string() == text && s.len() == text.len()) as u8, Err(_) => 0 };
+    // every way of turning a sequence over the derived codec into text gives its display characters
+    let rt = match Seq::<A>::try_from(text.as_str()) {
+        Ok(s) => (s.to_string() == text && s.len() == text.len()
+                  && format!("{}", s) == text && format!("{}", &s[..]) == text
+                  && String::from(&s) == text && String::from(&s[..]) == text
+                  && String::from(s.clone()) == text
+                  && { let t: String = s.clone().into(); t == text }
+                  && s.iter().map(|x| x.to_char()).collect::<String>() == text
+                  && text.parse::<Seq<A>>().map(|p| p == s).unwrap_or(false)
+                  && s[..] == text.as_str()) as u8,
+        Err(_) => 0 };
     let mut r: Seq<A> = A::items().collect(); r.rev(); r.rev();
     let same = (r.to_string() == text) as u8;
     println!("roundtrip {} {}", rt, same);
